@@ -71,7 +71,7 @@ def gen_case(ctx, i):
     return {"i": i, "family": fam, "model": model, "scale": scale, "is_rgb": bool(r.random() < 0.5), "color_video": color, "n_nodes": n_nodes, "frames": frames,
             "max_stride": int(r.choice([8, 16, 32])), "stride": int(r.choice([1, 2, 4])), "paf_stride": int(r.choice([2, 4, 8])), "sigma": float(r.choice([1.0, 1.5, 2.5])),
             "anchor": [None, 0, 1][int(r.integers(0, 3))], "explicit_max": [int(r.choice([72, 96, 128])), int(r.choice([96, 128]))] if explicit else None, "crop": int(r.choice([32, 40, 48])),
-            "seed": int(r.integers(0, 2 ** 31))}
+            "seed": int(r.integers(0, 2 ** 31)), "litdata": bool(ctx.tier == "thorough" and i % 400 == 7)}
 
 
 def cases(ctx):
@@ -202,10 +202,51 @@ def check_pipeline(ctx, case):
                 compare(ctx, small, "torch_dataset", "chunks+streaming", a, c, idx, {image_key})
         finally:
             ld.StreamingDataset.__getitem__ = orig_get
+        if case.get("litdata"):
+            real_litdata_round_trip(ctx, case, small, labels, data_cfg, head, paf_head, max_hw, max_inst, mem, image_key)
     finally:
         shutil.rmtree(chunks, ignore_errors=True)
     multi = any(len(fr["animals"]) >= 2 for fr in case["frames"])
     return (model, case["scale"], case["stride"], case["paf_stride"], case["is_rgb"], case["color_video"], case["anchor"], repr(case["explicit_max"]), case["max_stride"]) if (multi or case["scale"] != 1.0) else None
+
+
+def real_litdata_round_trip(ctx, case, small, labels, data_cfg, head, paf_head, max_hw, max_inst, mem, image_key):
+    """Thorough tier: the real litdata storage layer (ld.optimize with the real chunk function, then the real
+    *StreamingDataset reading the .bin files) against the in-memory dataset."""
+    import functools
+    import tempfile
+    import litdata as ld
+    from sleap_nn.data import get_data_chunks as gc, streaming_datasets as sd
+    from vf import synth
+
+    model = case["model"]
+    out = tempfile.mkdtemp(prefix="ld-", dir=synth.workdir("C18"))
+    try:
+        common = dict(data_config=data_cfg, max_hw=max_hw, user_instances_only=True, scale=case["scale"])
+        if model == "single":
+            fn, cls, kw = functools.partial(gc.single_instance_data_chunks, **common), sd.SingleInstanceStreamingDataset, {}
+        elif model == "centroid":
+            fn, cls, kw = functools.partial(gc.centroid_data_chunks, max_instances=max_inst, anchor_ind=case["anchor"], **common), sd.CentroidStreamingDataset, {}
+        elif model == "bottomup":
+            fn, cls = functools.partial(gc.bottomup_data_chunks, max_instances=max_inst, **common), sd.BottomUpStreamingDataset
+            kw = {"pafs_head": paf_head, "edge_inds": labels.skeletons[0].edge_inds}
+        else:
+            fn, cls = functools.partial(gc.centered_instance_data_chunks, max_instances=max_inst, crop_size=(case["crop"], case["crop"]), anchor_ind=case["anchor"], **common), sd.CenteredInstanceStreamingDataset
+            kw = {"crop_hw": (case["crop"], case["crop"]), "input_scale": case["scale"]}
+        try:
+            ld.optimize(fn=fn, inputs=[(lf, labels.videos.index(lf.video)) for lf in labels], output_dir=out, num_workers=1, chunk_size=100)
+            ds = cls(input_dir=out, shuffle=False, confmap_head=head, max_stride=case["max_stride"], apply_aug=False, augmentation_config=None, **kw)
+        except Exception as e:
+            ctx.count("litdata_round_trips_inconclusive")
+            return
+        ctx.count("litdata_round_trips")
+        if len(ds) != len(mem):
+            ctx.violation("sample-count", f"{model}: litdata holds {len(ds)} samples, in-memory dataset {len(mem)}", small)
+        for idx in range(min(len(ds), len(mem))):
+            ctx.count("litdata_samples_compared")
+            compare(ctx, small, "torch_dataset", "litdata (ld.optimize + StreamingDataset)", mem[idx], ds[idx], idx, {image_key})
+    finally:
+        shutil.rmtree(out, ignore_errors=True)
 
 
 def check_datapipe(ctx, case):
@@ -278,5 +319,5 @@ def finalize(ctx):
 LEVEL_TEXT = ("For each seeded label set and configuration the same samples are produced by the real in-memory Dataset, the real npz-chunk Dataset and the real chunk function + "
               "StreamingDataset.__getitem__, and compared key by key (network inputs within 8-bit truncation, targets and keypoints within 1e-4); DataPipe blocks are compared with "
               "their functional counterparts on random examples. Exploration over the documented-equal domain.")
-LEVEL_NOTE = "Trusted: the litdata storage layer is bypassed (chunk dicts go straight to the streaming class's __getitem__); thorough-tier ld.optimize round trips are not built."
+LEVEL_NOTE = "Trusted: in the quick tier the litdata storage layer is bypassed (chunk dicts go straight to the streaming class's __getitem__); the thorough tier adds real ld.optimize + StreamingDataset round trips for a subset."
 TECHNIQUE = "runtime monitoring: differential comparison of interchangeable implementations on the same inputs"
